@@ -282,6 +282,28 @@ def defaults_variant(cfg: Dict) -> Dict:
     return c
 
 
+def sharing_first_variant(cfg: Dict, rng: Rng) -> Dict:
+    """The agent that SHARES rewards is declared FIRST, before the >= 2 agents it shares from, and those are stochastic agents that
+    draw from the seeded global generator when they act, all in the same step (periodic agents with variance > 0, same start step and
+    frequency). The dependency sets of the reward-sharing graph are sets of agent names: their iteration order (PYTHONHASHSEED) decides
+    the reward EVALUATION order - which must be all it decides. If the same order also decided who ACTS first, the draws would be handed
+    out differently and the trajectories of two interpreters would part."""
+    cfg = copy.deepcopy(cfg)
+    hosts = [n["hostname"] for n in cfg["simulation"]["network"]["nodes"] if n.get("type") == "computer"]
+    names = rng.shuffle(["per_alpha", "per_bravo", "per_charlie", "per_delta"])[:rng.range(3, 4)]
+    freq = rng.range(3, 4)
+    per = [{"ref": nm, "team": "GREEN", "type": "periodic-agent",
+            "agent_settings": {"possible_start_nodes": [hosts[i % len(hosts)]], "target_application": "web-browser",
+                               "start_step": 1, "start_variance": 0, "frequency": freq, "variance": freq - 1}} for i, nm in enumerate(names)]
+    pa = envrig.proxy_agent_cfg(cfg)
+    rf = pa.setdefault("reward_function", {}).setdefault("reward_components", [])
+    for nm in names:
+        rf.append({"type": "shared-reward", "weight": 0.25, "options": {"agent_name": nm}})
+    others = [a for a in cfg["agents"] if a is not pa]
+    cfg["agents"] = [pa] + per + others
+    return cfg
+
+
 def warm_specs(cfg: Dict, rng: Rng) -> List[Dict]:
     """The process histories of a case: [0] the contrast scenario (built, stepped, reset, closed), [1] the shipped data_manipulation
     scenario (NMNE capture on, DELETE keyword)."""
@@ -341,6 +363,20 @@ def cases(ctx: Ctx, search: bool = False):
             k = ctx.scale(10, 24)
             acts = [r.below(_n_actions(cfg)) if r.chance(1, 4) else 0 for _ in range(k)]  # mostly do-nothing: let the scripted traffic through
             yield name, "defaults-after-history", cfg, acts + [["reset", cfg["game"]["seed"]]] + acts + [["reset", None]] + acts[:k // 2]
+    # the reward-sharing agent declared first, its stochastic dependants acting in the same step
+    for i in range(ctx.scale(1, 4) if not search else 2):
+        if "data_manipulation" not in shipped:
+            break
+        r = rng.fork(f"sharing-first-{i}")
+        try:
+            cfg = sharing_first_variant(envrig.with_proxy(scen.load_cfg(shipped["data_manipulation"])), r)
+            scen.make_game(cfg)
+        except Exception as e:
+            ctx.notes.append(f"sharing-first variant {i} not built: {type(e).__name__}: {str(e)[:160]}")
+            continue
+        cfg["game"]["seed"] = r.range(2, 10 ** 6)
+        yield "data_manipulation", f"sharing-agent-first-{i}", cfg, gen_ops(r, _n_actions(cfg), ctx.scale(8, 16), cfg["game"]["seed"], 0,
+                                                                            short=not ctx.thorough)
     # threat-actor agents with stochastic settings (uc7), and a generated scenario with a random agent + nmap + database + web
     n_tap = ctx.scale(1, 3) if not search else 2
     for name in ("uc7_config", "uc7_config_tap003"):
